@@ -299,7 +299,78 @@ func c07Env() *stick.Env {
 
 var c07Alphas = map[int][]*c07St{}
 
+// c07Deep: k nested loops; loop j binds x (the others bind their own names), the context defines x as well; the
+// innermost body sees loop j's x, a macro called there sees its parameter, and afterwards x is the context's again.
+func c07Deep(k, j int) core.Result {
+	var sb strings.Builder
+	for i := 1; i <= k; i++ {
+		v := "q" + itoa(i)
+		if i == j {
+			v = "x"
+		}
+		sb.WriteString("{% for " + v + " in ['L" + itoa(i) + "'] %}")
+	}
+	sb.WriteString("<{{ x }}|{{ q1 }}|{{ _self.m1('P') }}|{{ x }}>")
+	for i := 1; i <= k; i++ {
+		sb.WriteString("{% endfor %}")
+	}
+	sb.WriteString("[{{ x }}|{{ probe('q1') }}|{{ probe('loop') }}]")
+	wantX := "cx"
+	if j >= 1 {
+		wantX = "L" + itoa(j)
+	}
+	q1 := "L1"
+	if j == 1 {
+		q1 = ""
+	}
+	want := "<" + wantX + "|" + q1 + "|(x=P|D)|" + wantX + ">[cx|U|U]"
+	src := c07Macros + sb.String()
+	out, err, pan := tryExec(c07Env(), src, map[string]stick.Value{"x": "cx"})
+	if pan != "" || err != nil {
+		return core.Violation("error", fmt.Sprintf("%q: %v %s", src, err, pan))
+	}
+	if out != want {
+		return core.Violation("scoping", fmt.Sprintf("%d nested loops, loop %d binding x: %s renders\n    %q, want\n    %q", k, j, sb.String(), out, want))
+	}
+	return core.Okay(true, out)
+}
+
+// c07Recursive: a macro that calls itself b times per level to depth n and prints its own parameters after the nested
+// calls: every call still sees its own arguments when the nested calls have returned.
+func c07Recursive(n, b int) core.Result {
+	calls := ""
+	for i := 0; i < b; i++ {
+		calls += "{{ _self.f(n - 1, tag ~ '" + string(rune('a'+i)) + "') }}"
+	}
+	src := "{% macro f(n, tag) %}({{ tag }}{{ n }}{% if n > 0 %}" + calls + "{% endif %}{% for i in [1] %}{{ tag }}{% endfor %}{{ n }}){% endmacro %}{{ _self.f(" + itoa(n) + ", 't') }}[{{ probe('n') }}{{ probe('tag') }}]"
+	var ref func(n int, tag string) string
+	ref = func(n int, tag string) string {
+		r := "(" + tag + itoa(n)
+		if n > 0 {
+			for i := 0; i < b; i++ {
+				r += ref(n-1, tag+string(rune('a'+i)))
+			}
+		}
+		return r + tag + itoa(n) + ")"
+	}
+	want := ref(n, "t") + "[UU]"
+	out, err, pan := tryExec(c07Env(), src, nil)
+	if pan != "" || err != nil {
+		return core.Violation("error", fmt.Sprintf("%q: %v %s", src, err, pan))
+	}
+	if out != want {
+		return core.Violation("scoping", fmt.Sprintf("%q renders\n    %q, want\n    %q", src, out, want))
+	}
+	return core.Okay(true, out)
+}
+
 func c07Run(c core.Case) core.Result {
+	if c.Fam == "deep" {
+		return c07Deep(c.N[0], c.N[1])
+	}
+	if c.Fam == "rec" {
+		return c07Recursive(c.N[0], c.N[1])
+	}
 	level := c.N[0]
 	alpha, ok := c07Alphas[level]
 	if !ok {
@@ -389,6 +460,18 @@ func c07Gen(level, maxLen int, ctxs []int, emit func(core.Case)) {
 
 func c07Levels(tier string) []core.Level {
 	lv := []core.Level{
+		{Name: "depth: 1..20 nested loops with x bound by the context and by each single loop level (or none); a macro calling itself 1..3 times per level to depth 0..5 and reading its parameters after the nested calls", Gen: func(emit func(core.Case)) {
+			for k := 1; k <= 20; k++ {
+				for j := 0; j <= k; j++ {
+					emit(core.Case{Fam: "deep", N: []int{k, j}})
+				}
+			}
+			for b := 1; b <= 3; b++ {
+				for n := 0; n <= 5; n++ {
+					emit(core.Case{Fam: "rec", N: []int{n, b}})
+				}
+			}
+		}},
 		{Name: "flat programs: every sequence of <= 4 statements (set x, set y, observe, 7 macro calls) x 4 initial contexts", Gen: func(emit func(core.Case)) { c07Gen(0, 4, []int{0, 1, 2, 3}, emit) }},
 		{Name: fmt.Sprintf("depth 1: every sequence of <= 2 statements over %d (leaves + for/if around every body of <= 2 leaves, 6 loop-variable forms) x 3 contexts (empty, x and y defined, x and y null)", len(c07Alphabet(1))), Gen: func(emit func(core.Case)) { c07Gen(1, 2, []int{0, 2, 3}, emit) }},
 		{Name: "depth 2: every single statement and every pair with a leaf, compounds nested in compounds", Gen: func(emit func(core.Case)) {
